@@ -13,6 +13,8 @@
   backtracking loop.
 -/
 import Alpaqa.Proofs.FistaInv
+import Alpaqa.Proofs.FistaFuel
+import Mathlib.Algebra.Order.Field.Rat
 
 namespace Alpaqa.Props.C03_Fista
 open Alpaqa Alpaqa.Fista Alpaqa.Gen
@@ -105,6 +107,18 @@ theorem fista_wrote_iff (P : Problem α) (pr : Params α) (stop : Nat → Bool) 
     x0 y Sig errz0
   rw [this.1, this.2.1]
 
+/-! ### The model's backtracking fuel suffices (linearly ordered fields)
+
+The theorems above hold whatever the model's fuel does; but a run of the *model* is a run of the C++ loop
+only if the backtracking `while` was never truncated by the model's `qubFuel`.  Over an ordered field this
+is a theorem under `FistaFuelOK pr nL` (`0 < L_min ≤ L_max ≤ L_min·2^nL`, `L_max ≤ L_0·2^nL` for a
+user-supplied `L_0 > 0`, `nL + 1 ≤ qubFuel`): `L` doubles per pass and the loop stops at `L ≥ L_max`. -/
+theorem fista_fuel_suffices {β : Type} [Field β] [LinearOrder β] [IsStrictOrderedRing β] [RealLike β]
+    (P : Problem β) (pr : Params β) (stop : Nat → Bool) (oot : Bool)
+    (x0 y Sig errz0 gV : Vec β) (nan inf : β) (nL : Nat) (hp : FistaFuelOK pr nL) :
+    (run P pr stop oot x0 y Sig errz0 gV nan inf).fuelOut = false :=
+  run_fuelOut_false P pr stop oot x0 y Sig errz0 gV nan inf nL hp
+
 /-! ### Non-vacuity: a concrete run of the model over ℚ (constant oracles) -/
 
 local instance instRealLikeRatC03F : RealLike ℚ := ⟨id, fun _ => false, fun _ => true⟩
@@ -124,5 +138,12 @@ example : (run exP exPr (fun _ => false) false [2] [1] [2] [0] [] 0 0).wrote = t
     (run exP exPr (fun _ => false) false [2] [1] [2] [0] [] 0 0).y = [3] ∧
     (run exP exPr (fun _ => false) false [2] [1] [2] [0] [] 0 0).errz = [1] := by
   decide +kernel
+
+/-- `FistaFuelOK` for the example parameters (fixed step size `L_min = L_max = 1`: `nL = 0`) and the
+    fuel theorem instantiated -/
+example : (run exP exPr (fun _ => false) false [2] [1] [2] [0] [] 0 0).fuelOut = false :=
+  fista_fuel_suffices exP exPr (fun _ => false) false [2] [1] [2] [0] [] 0 0 0
+    ⟨by norm_num [exPr], by norm_num [exPr], by norm_num [exPr],
+     fun h => by exact absurd h (by decide), by norm_num [exPr]⟩
 
 end Alpaqa.Props.C03_Fista
